@@ -94,12 +94,20 @@ type spliceValue struct {
 
 // evalState tracks what the evaluation of dynamic values depends on.
 type evalState struct {
-	// number of cyclic references detected so far
-	cycles int
-
 	// what the dynamic values currently being evaluated depend on, one set per
 	// nesting level
 	resolved []*depSet
+
+	// A value computed while a reference has been re-entered is specific to
+	// the references active when its evaluation started - but only if the
+	// re-entered reference was active already at that time. started holds, per
+	// nesting level, the logical time the evaluation started, activatedAt the
+	// time a reference became active, tainted the levels that have met a
+	// re-entry of a reference activated before they started.
+	clock       int
+	started     []int
+	tainted     []bool
+	activatedAt map[string]int
 }
 
 // depSet is the set of references the evaluation of a value depends on: the
@@ -180,16 +188,41 @@ func (d *depSet) anyActive(active *fieldSet) bool {
 }
 
 func (s *evalState) push() {
+	s.clock++
 	s.resolved = append(s.resolved, &depSet{})
+	s.started = append(s.started, s.clock)
+	s.tainted = append(s.tainted, false)
 }
 
-func (s *evalState) pop() *depSet {
+// pop ends the innermost evaluation: the references it resolved, and whether
+// its result depends on references that were active before it started.
+func (s *evalState) pop() (*depSet, bool) {
 	last := len(s.resolved) - 1
-	deps := s.resolved[last]
+	deps, tainted := s.resolved[last], s.tainted[last]
 	verifDeps("evalState.pop", len(deps.names)+len(deps.subs))
-	s.resolved = s.resolved[:last]
+	s.resolved, s.started, s.tainted = s.resolved[:last], s.started[:last], s.tainted[:last]
 	s.addSet(deps) // the enclosing value depends on them as well
-	return deps
+	return deps, tainted
+}
+
+// activated records that the reference name has just become active.
+func (s *evalState) activated(name string) {
+	if s.activatedAt == nil {
+		s.activatedAt = map[string]int{}
+	}
+	s.clock++
+	s.activatedAt[name] = s.clock
+}
+
+// reentered records that the active reference name has been met again: the
+// evaluations that started while it was active already depend on that.
+func (s *evalState) reentered(name string) {
+	at := s.activatedAt[name]
+	for i, t := range s.started {
+		if t > at {
+			s.tainted[i] = true
+		}
+	}
 }
 
 // add records the names of references as dependencies of the value being
